@@ -507,6 +507,7 @@ class FunctionResult:
         self.limit = None
         self.covers = []
         self.info = {}
+        self.observables = []
 
 
 def make_param(eng, name, sort):
@@ -626,15 +627,18 @@ def verify_function(eng, c, max_paths=3000):
             raise EngineLimit("break/continue outside loop")
         finish_normal(eng, c, result, entry_locals, pre_heap, module)
 
+    eng.observables = []
     try:
         results = eng.explore(run, max_paths)
     except EngineLimit as e:
         res.status = "out-of-reach"
         res.limit = str(e)
+        res.observables = list(eng.observables)
         return res
     for p, status in results:
         res.paths += 1
         res.obligations += p.obligations
+    res.observables = list(eng.observables)
     return res
 
 
